@@ -2,7 +2,7 @@
    proofs in Tok/LexProofs.v over the model Tok/Lex.v of lexer_utils.lex,
    for every text and every lexer output satisfying the Pygments contract
    (offsets start at 0, are contiguous, texts concatenate to the input). *)
-From Verif Require Import Base Token Lex LexProofs LexPadProofs.
+From Verif Require Import Base Token Lex LexProofs LexPadProofs GenCompare TieProofs.
 From Coq Require Import Sorted.
 Open Scope Z_scope.
 
@@ -73,7 +73,13 @@ Theorem C16_file_filtering : forall code lts fc t,
   In t (locate code (trim_pad code lts)) /\ is_whitespace t = false /\ (fc = true -> is_comment t = false).
 Proof. exact C16F_filtering. Qed.
 
+(* the line-advance test of the model is the one lex() states (regenerated from lexer_utils.py on this run) *)
+Theorem C16_operator_tied : forall i rest n ls off,
+  advance (i :: rest) n ls off = if lex_past_newline off i then advance rest (n + 1) (i + 1) off else (i :: rest, n, ls).
+Proof. exact tie_lex_advance. Qed.
+
 Print Assumptions C16_padding_dropped.
+Print Assumptions C16_operator_tied.
 Print Assumptions C16_file_line_and_column.
 Print Assumptions C16_file_text_at_position.
 Print Assumptions C16_file_strictly_increasing.
